@@ -15,6 +15,7 @@ import re
 import warnings
 
 from harness.common import run_guarded, REPO
+from harness.shrink import shrink_list
 from translate import gen_style
 from translate.gen_style import cstr, cval, coval, clist
 
@@ -34,7 +35,7 @@ _G = {}
 
 def G():
     if not _G:
-        _G.update(gen_style.collect(REPO))
+        _G.update(gen_style.collect(REPO, strict=False))   # the search keeps its schema when a source form is unknown
     return _G
 
 
@@ -145,7 +146,7 @@ def pools(kind):
     if name == "KStr":
         return ["abc", "x y", "", "lbl"], [1, 2.5, True]
     if name == "KToStr":
-        return ["lbl", "other", "a_b", "third"], []
+        return ["lbl", "other", "a_b", "third", ""], []
     if name == "KEnum":
         return [v for v in allowed], ["nope", 17]
     if name == "KColor":
@@ -661,13 +662,18 @@ def resolved_style(obj, show_kwargs, container="none"):
     kwargs = copy.deepcopy(show_kwargs)
     style_kwargs = {k: v for k, v in kwargs.items() if k.startswith("style")}
     style_kwargs = linearize_dict(style_kwargs, separator="_")
-    top = obj
+    top, holder = obj, None
     if container == "collection":
-        top = magpy.Collection(obj)
+        top = holder = magpy.Collection(obj)
     elif container == "nested":
-        top = magpy.Collection(magpy.Sensor(), magpy.Collection(obj))
-    flat = get_flatten_objects_properties_recursive(
-        top, style_kwargs=style_kwargs, colorsequence=magpy.defaults.display.colorsequence)
+        holder = magpy.Collection(obj)
+        top = magpy.Collection(magpy.Sensor(), holder)
+    try:
+        flat = get_flatten_objects_properties_recursive(
+            top, style_kwargs=style_kwargs, colorsequence=magpy.defaults.display.colorsequence)
+    finally:
+        if holder is not None:
+            holder.remove(obj)         # the object can be shown again in another collection
     return flat[obj]["style"]
 
 
@@ -836,6 +842,481 @@ def check_assign_instance(cls, p, v):
     if not same(canon(src.style.as_dict()), want):
         return ("independent/style-instance-shared", f"{cls}: obj.style = other.style shares the style object")
     return None
+
+
+# ------------------------------------------------------------------ several leaves in ONE call, mixed notations
+ENTRIES = ("update-dict", "update-kwargs", "update-dict+kwargs", "ctor-style", "ctor-style+kwargs", "setter",
+           "copy", "sub-update", "sub-assign", "set-children")
+
+
+def enc_item(p, v, notation):
+    """(key, value) of one leaf in an update dictionary"""
+    if notation == "under":
+        return "_".join(p), v
+    if notation == "nested":
+        return p[0], nest(p[1:], v)
+    j = min(2, len(p))
+    return "_".join(p[:j]), nest(p[j:], v)
+
+
+def key_kind(k, v):
+    return "nested" if isinstance(v, dict) and "_" not in k else ("mixed" if isinstance(v, dict) else "underscore")
+
+
+def check_multi(cls, items, entry):
+    """items: [(path, value, notation)] for DIFFERENT leaves, given in one call in this key order.
+    Expected: the style of a fresh object on which every leaf is assigned by attribute.
+    returns None or (lost leaf, what)"""
+    items = [(tuple(p), v, n) for p, v, n in items]
+    ref = make_obj(cls)
+    for p, v, _ in items:
+        apply_set(ref.style, p, v, ("attr", 0))
+    base = ()
+    if entry in ("sub-update", "sub-assign"):
+        # common first segment: the call goes to that sub-object
+        heads = {p[0] for p, _, _ in items}
+        if len(heads) != 1 or any(len(p) < 2 for p, _, _ in items):
+            return None
+        base = (items[0][0][0],)
+        sub = sub_struct(class_struct(cls), base)
+        if entry == "sub-assign" and not sub[3] and any(n != "nested" for _, _, n in items):
+            return None      # Class(**dict) of a style class without **kwargs takes no underscore keys (ArrowCS)
+    pairs = [enc_item(p[len(base):], v, n) for p, v, n in items]
+    if len({k for k, _ in pairs}) != len(pairs):
+        return None          # two leaves under the same key: a python dict cannot hold them
+    arg = dict(pairs)
+    try:
+        if entry == "update-dict":
+            o = make_obj(cls)
+            o.style.update(copy.deepcopy(arg))
+        elif entry == "update-kwargs":
+            o = make_obj(cls)
+            o.style.update(**copy.deepcopy(arg))
+        elif entry == "update-dict+kwargs":
+            o = make_obj(cls)
+            o.style.update(copy.deepcopy(dict(pairs[:1])), **copy.deepcopy(dict(pairs[1:])))
+        elif entry == "ctor-style":
+            o = make_obj(cls, copy.deepcopy(arg))
+        elif entry == "ctor-style+kwargs":
+            o = make_obj(cls, copy.deepcopy(dict(pairs[:1])), {"style_" + k: copy.deepcopy(v) for k, v in pairs[1:]})
+        elif entry == "setter":
+            o = make_obj(cls)
+            o.style = copy.deepcopy(arg)
+        elif entry == "copy":
+            o = make_obj(cls).copy(**{"style_" + k: copy.deepcopy(v) for k, v in pairs})
+            ref.style.label = o.style.label
+        elif entry == "sub-update":
+            o = make_obj(cls)
+            getp(o.style, base).update(copy.deepcopy(arg))
+        elif entry == "sub-assign":
+            o = make_obj(cls)
+            setattr(o.style, base[0], copy.deepcopy(arg))
+        elif entry == "set-children":
+            o = make_obj(cls)
+            magpy.Collection(magpy.Sensor(), magpy.Collection(o)).set_children_styles(copy.deepcopy(arg))
+        else:
+            raise KeyError(entry)
+    except Exception as e:   # pylint: disable=broad-except
+        return items[0][0], f"{cls} {entry} with {arg!r} raised {type(e).__name__}: {str(e)[:150]}"
+    got, want = canon(o.style.as_dict()), canon(ref.style.as_dict())
+    d = tree_diff(got, want)
+    if d:
+        leaf = d[0]
+        return leaf, (f"{cls} {entry} with {arg!r} in one call: {'.'.join(leaf)} is {tget(got, leaf)!r}, "
+                      f"expected {tget(want, leaf)!r}")
+    return None
+
+
+def multi_pattern(items, base=()):
+    """how the keys of a (shrunk, two-leaf) call relate, in call order: the later key is a shorter head of the
+    earlier one (underscore-then-nested), the other way round (nested-then-underscore), or unrelated"""
+    keys = [enc_item(tuple(p)[len(base):], v, n)[0].split("_") for p, v, n in items]
+    if len(keys) == 2:
+        a, b = keys
+        if len(b) < len(a) and a[:len(b)] == b:
+            return "underscore-then-nested"
+        if len(a) < len(b) and b[:len(a)] == a:
+            p1 = tuple(items[0][0])[len(base):]
+            if len(b) == len(a) + 1 and len(p1) > len(a) and b[-1] == p1[len(a)]:
+                return "nested-then-underscore:same-subkey"      # the second key re-opens a sub-dict of the first
+            return "nested-then-underscore"
+    return "unrelated-keys"
+
+
+def oracle_multi(ctx, classes, per_class):
+    rng = ctx.rng
+    for cls in classes:
+        st = class_struct(cls)
+        ls = [l for l in leaves(st) if fixed_points(l[1]) and l[2] is None and len(l[0]) >= 2]
+        byhead = {}
+        for l in ls:
+            byhead.setdefault(l[0][0], []).append(l)
+        heads = [h for h, v in byhead.items() if len(v) >= 2]
+        for entry in ENTRIES:
+            if cls == "MagpyMarkers" and entry not in ("update-dict", "update-kwargs", "update-dict+kwargs",
+                                                       "sub-update", "sub-assign"):
+                continue
+            # fixed battery: two leaves with the same head, every notation pair, both orders
+            combos = [(a, b) for a in ("under", "nested") for b in ("under", "nested")]
+            trials = []
+            for n1, n2 in combos:
+                h = rng.choice(heads)
+                l1, l2 = rng.sample(byhead[h], 2)
+                trials.append([(l1[0], rng.choice(fixed_points(l1[1])), n1), (l2[0], rng.choice(fixed_points(l2[1])), n2)])
+            # ... and two leaves sharing two segments: nested dict, then a key re-opening its sub-dictionary
+            deep = {}
+            for l in ls:
+                if len(l[0]) >= 3:
+                    deep.setdefault(l[0][:2], []).append(l)
+            deep = [v for v in deep.values() if len(v) >= 2]
+            if deep:
+                for n1, n2 in (("nested", "mixed"), ("mixed", "nested")):
+                    l1, l2 = rng.sample(rng.choice(deep), 2)
+                    trials.append([(l1[0], rng.choice(fixed_points(l1[1])), n1),
+                                   (l2[0], rng.choice(fixed_points(l2[1])), n2)])
+            for _ in range(per_class):      # random: 2-3 leaves, any heads, any notation
+                k = rng.choice([2, 3])
+                picks = rng.sample(ls, k)
+                trials.append([(l[0], rng.choice(fixed_points(l[1])), rng.choice(["under", "nested", "mixed"]))
+                               for l in picks])
+            for items in trials:
+                try:
+                    res = check_multi(cls, items, entry)
+                except Exception as e:   # pylint: disable=broad-except
+                    res = (items[0][0], f"{cls} {entry}: {type(e).__name__}: {e}")
+                ctx.case(("multi", cls, entry, repr(items)), True)
+                ctx.bump("one-call:" + entry)
+                if res is not None:
+                    small = items
+                    if len(items) > 2:       # shrink to two leaves
+                        for i in range(len(items)):
+                            cand = items[:i] + items[i + 1:]
+                            try:
+                                if check_multi(cls, cand, entry) is not None:
+                                    small = cand
+                                    break
+                            except Exception:   # pylint: disable=broad-except
+                                pass
+                        res = check_multi(cls, small, entry) or res
+                    base = (small[0][0][0],) if entry in ("sub-update", "sub-assign") else ()
+                    ctx.impl_fail(f"notations/mixed-call:{multi_pattern(small, base)}", res[1],
+                                  {"kind": "multi", "cls": cls, "items": [[list(p), v, n] for p, v, n in small],
+                                   "entry": entry})
+
+
+# ------------------------------------------------------------------ histories with reads in between, against a twin
+def check_history_twin(cls, ops):
+    """ops: ("set", p, v, how, valid) | ("read", kind).  Every valid single-leaf assignment takes effect, every
+    rejected one changes nothing, reads change nothing: the final style equals the style of a fresh twin on which
+    the valid assignments were made by attribute, in order"""
+    o, twin = make_obj(cls), make_obj(cls)
+    fresh_defaults()
+    try:
+        for i, op in enumerate(ops):
+            if op[0] == "read":
+                before = canon(o.style.as_dict())
+                if op[1] == "as_dict":
+                    o.style.as_dict(flatten=True, separator="_")
+                elif op[1] == "resolve":
+                    resolved_style(o, {}, "none" if cls == "MagpyMarkers" else "collection")
+                elif op[1] == "copy" and hasattr(o, "copy"):
+                    o.copy().style.update(label="a copy")
+                elif op[1] == "reset":
+                    magpy.defaults.reset()
+                    magpy.defaults.reset()
+                elif op[1] == "repr":
+                    repr(o.style)
+                if not same(canon(o.style.as_dict()), before):
+                    return i, f"{cls}: reading the style ({op[1]}) changed it"
+                continue
+            _, p, v, how, valid = op
+            try:
+                apply_set(o.style, tuple(p), v, tuple(how))
+                raised = False
+            except Exception:   # pylint: disable=broad-except
+                raised = True
+            if valid and raised:
+                return i, f"{cls}: valid assignment {'.'.join(p)}={v!r} via {how} raised"
+            if not valid and not raised:
+                return i, f"{cls}: invalid value {'.'.join(p)}={v!r} via {how} was accepted"
+            if valid:
+                apply_set(twin.style, tuple(p), v, ("attr", 0))
+            got, want = canon(o.style.as_dict()), canon(twin.style.as_dict())
+            if not same(got, want):
+                leaf = tree_diff(got, want)[0]
+                return i, (f"{cls}: after step {i} ({'.'.join(p)}={v!r} via {how}, "
+                           f"{'valid' if valid else 'rejected'}): {'.'.join(leaf)} is {tget(got, leaf)!r}, "
+                           f"twin has {tget(want, leaf)!r}")
+        return None
+    finally:
+        fresh_defaults()
+
+
+def oracle_history(ctx, classes, per_class, nops):
+    rng = ctx.rng
+    for cls in classes:
+        st = class_struct(cls)
+        ls = [l for l in leaves(st) if fixed_points(l[1])]
+        for _ in range(per_class):
+            ops = []
+            for _ in range(nops):
+                x = rng.random()
+                if x < 0.25:
+                    ops.append(("read", rng.choice(["as_dict", "resolve", "copy", "reset", "repr"])))
+                    continue
+                p, kind, _ = rng.choice(ls)
+                _, bad = pools(kind)
+                if bad and x < 0.4:
+                    ops.append(("set", list(p), rng.choice(bad), list(rng.choice(how_list(p, False))), False))
+                else:
+                    ops.append(("set", list(p), rng.choice(fixed_points(kind)),
+                                list(rng.choice(how_list(p, False))), True))
+            try:
+                res = check_history_twin(cls, ops)
+            except Exception as e:   # pylint: disable=broad-except
+                res = (0, f"{cls}: {type(e).__name__}: {e}")
+            ctx.case(("history", cls, repr(ops)), True)
+            ctx.bump("history-twin")
+            if res is not None:
+                def fails(sub):
+                    try:
+                        return check_history_twin(cls, sub) is not None
+                    except Exception:   # pylint: disable=broad-except
+                        return False
+                small = shrink_list(ops, fails, max_steps=40)
+                r2 = check_history_twin(cls, small) or res
+                last = small[r2[0]] if r2[0] < len(small) else small[-1]
+                trig = ("read:" + last[1]) if last[0] == "read" else \
+                    (alias_trigger(st, tuple(last[1]), st[1]) + (":rejected" if not last[4] else ""))
+                ctx.impl_fail(f"history/{trig}", r2[1], {"kind": "history", "cls": cls, "ops": small})
+
+
+# ------------------------------------------------------------------ several resets on one settings object
+def check_reset_history(steps):
+    """steps: [(p, v, how)]; on ONE fresh DefaultSettings object: change, reset, change, reset, ... and two resets
+    in a row: after every reset the settings are the import-time ones"""
+    from magpylib._src.defaults.defaults_classes import DefaultSettings
+    d = DefaultSettings()
+    want = canon(PRISTINE)
+    if not same(canon(d.as_dict()), want):
+        return 0, (), "a new DefaultSettings() differs from the settings at import time"
+    for i, (p, v, how) in enumerate(steps):
+        apply_set(d, tuple(p), v, tuple(how))
+        d.reset()
+        if i % 2:
+            d.reset()
+        got = canon(d.as_dict())
+        diff = tree_diff(got, want)
+        if diff:
+            leaf = diff[0]
+            return i, leaf, (f"change/reset cycle {i + 1} on one settings object ({'.'.join(p)}={v!r} via {how}): "
+                             f"after reset() {'.'.join(leaf)} is {tget(got, leaf)!r}, default {tget(want, leaf)!r}")
+    return None
+
+
+def oracle_reset_history(ctx, n, cycles):
+    rng = ctx.rng
+    dst = G()["defaults_schema"]
+    pr = canon(PRISTINE)
+    ls = [l for l in leaves(dst) if fixed_points(l[1])]
+    for _ in range(n):
+        steps = []
+        for _ in range(cycles):
+            p, kind, _ = rng.choice(ls)
+            cur = tget(pr, p)
+            vals = [v for v in fixed_points(kind) if cur is KeyError or not same(canon(v), cur)]
+            if not vals:
+                continue
+            steps.append((list(p), rng.choice(vals), list(rng.choice(how_list(p, False)))))
+        try:
+            res = check_reset_history(steps)
+        except Exception as e:   # pylint: disable=broad-except
+            res = (0, (), f"raised {type(e).__name__}: {e}")
+        ctx.case(("reset-history", repr(steps)), True)
+        ctx.bump("reset-history")
+        if res is not None:
+            i, leaf, what = res
+            trig = reset_trigger(leaf) if i == 0 else "after-earlier-reset"
+            ctx.impl_fail(f"reset/{trig}", what, {"kind": "reset-history", "steps": steps[:i + 1]})
+
+
+# ------------------------------------------------------------------ many objects in one show() call
+def check_batch(specs, kw):
+    """specs: [(cls, p, v) | (cls, None, None)]: objects with one own style value each, shown TOGETHER (free,
+    twice, and inside collections): every object's resolved style equals the one resolved when shown alone
+    (colour and label, which the display fills in by position, excepted when not set)"""
+    fresh_defaults()
+    objs = []
+    for cls, p, v in specs:
+        o = make_obj(cls)
+        if p is not None:
+            apply_set(o.style, tuple(p), v, ("attr", 0))
+        objs.append(o)
+    kwargs = copy.deepcopy(kw)
+    style_kwargs = linearize_dict({k: v for k, v in kwargs.items() if k.startswith("style")}, separator="_")
+    n = len(objs)
+    top = [objs[0], magpy.Collection(*objs[1:n // 2 + 1]), objs[0]] + \
+        [magpy.Collection(magpy.Collection(*objs[n // 2 + 1:]))]
+    flat = get_flatten_objects_properties_recursive(
+        *top, style_kwargs=style_kwargs, colorsequence=magpy.defaults.display.colorsequence)
+    for o, (cls, p, v) in zip(objs, specs):
+        if o not in flat:
+            return f"{cls} (object {objs.index(o)} of {n}) has no resolved style when shown with others"
+        got = canon(flat[o]["style"].as_dict())
+        alone = canon(resolved_style(o, kw).as_dict())
+        own = canon(o.style.as_dict())
+        for leaf in tree_diff(got, alone):
+            if leaf in (("color",), ("label",)) and tget(own, leaf) is None and \
+                    "style_" + leaf[0] not in style_kwargs:
+                continue
+            return (f"{cls} shown together with {n - 1} other objects: {'.'.join(leaf)} resolved to "
+                    f"{tget(got, leaf)!r}, alone {tget(alone, leaf)!r} (show arguments {kw!r})")
+    return None
+
+
+def oracle_batch(ctx, classes, n):
+    rng = ctx.rng
+    cands = [c for c in classes if c not in ("MagpyMarkers", "Collection")]
+    for _ in range(n):
+        k = rng.choice([4, 5, 7, 16])
+        specs = []
+        for i in range(k):
+            cls = rng.choice(cands) if i % 3 else cands[i % len(cands)]
+            if specs and rng.random() < 0.25:
+                specs.append(rng.choice(specs))            # a twin: same class, same own value
+                continue
+            ls = [l for l in leaves(class_struct(cls)) if fixed_points(l[1]) and l[2] is None]
+            if rng.random() < 0.8:
+                p, kind, _ = rng.choice(ls)
+                specs.append((cls, list(p), rng.choice(fixed_points(kind))))
+            else:
+                specs.append((cls, None, None))
+        kw = {}
+        for _ in range(rng.choice([0, 1, 2])):
+            cls = rng.choice([s[0] for s in specs])
+            ls = [l for l in leaves(class_struct(cls)) if fixed_points(l[1]) and l[2] is None
+                  and l[0][0] in show_keys()]
+            p, kind, _ = rng.choice(ls)
+            kw["style_" + "_".join(p)] = rng.choice(fixed_points(kind))
+        try:
+            res = check_batch(specs, kw)
+        except Exception as e:   # pylint: disable=broad-except
+            res = f"raised {type(e).__name__}: {e}"
+        finally:
+            fresh_defaults()
+        ctx.case(("batch", repr(specs), repr(kw)), True)
+        ctx.bump(f"batch-show:{k}")
+        if res is not None:
+            ctx.impl_fail("precedence/shown-with-others", res, {"kind": "batch", "specs": specs, "kw": kw})
+
+
+# ------------------------------------------------------------------ the real show() (plotly figure, no window)
+def check_show_figure():
+    """precedence through the public entry point: the opacity of the rendered bodies"""
+    import warnings as _w
+    _w.filterwarnings("ignore")
+    fresh_defaults()
+    try:
+        def cub(**kw):
+            return magpy.magnet.Cuboid(polarization=(0, 0, 1), dimension=(1, 1, 1), **kw)
+
+        def opac(*objs, **kw):
+            fig = magpy.show(*objs, backend="plotly", return_fig=True, **kw)
+            return [tr.opacity for tr in fig.data if tr.type == "mesh3d"]
+        magpy.defaults.display.style.magnet.magnetization.show = False
+        scenes = {"free": lambda: [cub(), cub(style_opacity=0.9, position=(3, 0, 0))],
+                  "collection": lambda: [magpy.Collection(cub(), cub(style_opacity=0.9, position=(3, 0, 0)))],
+                  "nested": lambda: [magpy.Collection(cub(), magpy.Collection(cub(style_opacity=0.9,
+                                                                                 position=(3, 0, 0))))]}
+        for name, mk in scenes.items():
+            got = sorted(set(opac(*mk())))
+            if got != [0.9, 1]:
+                return f"show({name}): body opacities {got}, expected [0.9, 1] (object value over default)"
+            for kw in ({"style_opacity": 0.4}, {"style": {"opacity": 0.4}}):
+                got = sorted(set(opac(*mk(), **kw)))      # bodies with one style may be merged into one trace
+                if got != [0.4]:
+                    return f"show({name}, {kw}): body opacities {got}, expected all 0.4 (show argument wins)"
+            magpy.defaults.display.style.base.opacity = 0.6
+            got = sorted(set(opac(*mk())))
+            magpy.defaults.display.style.base.opacity = 1
+            if got != [0.6, 0.9]:
+                return f"show({name}) with base default opacity 0.6: body opacities {got}, expected [0.6, 0.9]"
+        return None
+    finally:
+        fresh_defaults()
+
+
+# ------------------------------------------------------------------ aliasing through values handed over
+def check_alias(cls, scenario, p, v):
+    p = tuple(p)
+    a, b = make_obj(cls), make_obj(cls)
+    apply_set(a.style, p, v, ("attr", 0))
+    want = canon(a.style.as_dict())
+    if scenario == "as_dict-passed-back":
+        d = a.style.as_dict()
+        b.style.update(d)
+        a.style.update(d)                                  # its own dict back in: no change
+        if not same(canon(a.style.as_dict()), want):
+            return "notations/as_dict-round-trip", f"{cls}: style.update(style.as_dict()) changed the style"
+        if not same(canon(b.style.as_dict()), want):
+            return "notations/as_dict-round-trip", f"{cls}: b.style.update(a.style.as_dict()) does not give a's style"
+        a.style.update(label="changed-after")
+        d["label"] = "changed-dict"
+        if not same(canon(b.style.as_dict()), want):
+            return "independent/as_dict-shared", f"{cls}: after b.style.update(a.style.as_dict()) changing a changed b"
+    elif scenario == "flat-as_dict":
+        b.style.update(**a.style.as_dict(flatten=True, separator="_"))
+        if not same(canon(b.style.as_dict()), want):
+            leaf = tree_diff(canon(b.style.as_dict()), want)[0]
+            return ("notations/as_dict-round-trip",
+                    f"{cls}: b.style.update(**a.style.as_dict(flatten=True, separator='_')) differs at {'.'.join(leaf)}")
+    elif scenario == "sub-object-instance":
+        if len(p) < 2:
+            return None
+        setattr(b.style, p[0], getattr(a.style, p[0]))
+        if not same(tget(canon(b.style.as_dict()), p[:1]), tget(want, p[:1])):
+            return ("last-wins/sub-object-instance", f"{cls}: b.style.{p[0]} = a.style.{p[0]} did not take a's values")
+        before = canon(b.style.as_dict())
+        others = [x for x in fixed_points(dict((l[0], l[1]) for l in leaves(class_struct(cls)))[p])
+                  if not same(canon(x), canon(v))]
+        apply_set(a.style, p, others[0] if others else None, ("attr", 0))
+        if not same(canon(b.style.as_dict()), before):
+            return ("independent/sub-object-instance-shared",
+                    f"{cls}: after b.style.{p[0]} = a.style.{p[0]}, changing a.style.{'.'.join(p)} changed b's style")
+    elif scenario == "set-children-arg":
+        d = nest(p, v)
+        d0 = copy.deepcopy(d)
+        coll = magpy.Collection(b)
+        coll.set_children_styles(d, label="kw")
+        if d != d0:
+            return ("independent/set-children-styles-mutates-arg",
+                    f"Collection.set_children_styles(d, label='kw') changed the caller's d to {d!r}")
+    return None
+
+
+ALIAS_SCENARIOS = ("as_dict-passed-back", "flat-as_dict", "sub-object-instance", "set-children-arg")
+
+
+def oracle_alias(ctx, classes, per_class):
+    rng = ctx.rng
+    for cls in classes:
+        if cls == "MagpyMarkers":
+            continue
+        st = class_struct(cls)
+        ls = [l for l in leaves(st) if fixed_points(l[1]) and l[2] is None and l[0] != ("label",)]
+        for scenario in ALIAS_SCENARIOS:
+            for _ in range(per_class):
+                p, kind, _ = rng.choice(ls)
+                v = rng.choice(fixed_points(kind))
+                try:
+                    res = check_alias(cls, scenario, p, v)
+                except Exception as e:   # pylint: disable=broad-except
+                    res = ("independent/raises:" + scenario, f"{cls}: {type(e).__name__}: {e}")
+                ctx.case(("alias", cls, scenario, p), True)
+                ctx.bump("aliasing:" + scenario)
+                if res is not None:
+                    ctx.impl_fail(res[0], res[1], {"kind": "alias", "cls": cls, "scenario": scenario,
+                                                   "p": list(p), "v": v})
 
 
 def oracle_extra(ctx, classes, per_class):
@@ -1237,7 +1718,11 @@ def run(ctx):
                    and not (t == "precedence_show_label_refuted" and ok and "label" in show_keys())]
     ctx.partial = [t for t in ctx.theorems if t.endswith("_partial")]
 
-    classes = public_classes() if ok else []
+    try:
+        classes = public_classes()
+    except Exception as e:   # pylint: disable=broad-except
+        classes = []           # not even the schema can be read: nothing to enumerate
+        ctx.log(f"no schema for the search: {type(e).__name__}: {str(e)[:200]}")
 
     def corr():
         gen = HistGen(ctx.rng)
@@ -1291,7 +1776,7 @@ def run(ctx):
             ctx.add_broken("broken-correspondence", "StyleModel vs implementation",
                            json.dumps(c2, default=str) + "\nmodel says: " + model_diff(ctx, c2, obs[:n + 1]))
 
-    if classes:
+    if classes and ok:
         run_guarded(ctx, corr, "C20 correspondence")
 
     if not classes:      # the translator failed: search with the last good schema is impossible -> static list
@@ -1313,6 +1798,22 @@ def run(ctx):
     run_guarded(ctx, lambda: oracle_reject(ctx, classes if big else pick_classes(ctx, classes), big),
                 "C20 rejection oracle")
     run_guarded(ctx, lambda: oracle_extra(ctx, classes, 4 if big else 1), "C20 show-label / style-instance oracle")
+    ctx.log("rejection + extra done")
+    sub = classes if big else pick_classes(ctx, classes)
+    run_guarded(ctx, lambda: oracle_multi(ctx, sub, 4 if big else 1), "C20 one-call oracle")
+    run_guarded(ctx, lambda: oracle_history(ctx, sub, 12 if big else 2, 8), "C20 history-twin oracle")
+    run_guarded(ctx, lambda: oracle_reset_history(ctx, 40 if big else 8, 4), "C20 reset-history oracle")
+    run_guarded(ctx, lambda: oracle_batch(ctx, classes, 30 if big else 6), "C20 batch-show oracle")
+    run_guarded(ctx, lambda: oracle_alias(ctx, sub, 3 if big else 1), "C20 aliasing oracle")
+
+    def fig():
+        res = check_show_figure()
+        ctx.case(("show-figure",), True)
+        ctx.bump("show-figure")
+        if res is not None:
+            ctx.impl_fail("precedence/show-figure", res, {"kind": "show-figure"})
+    run_guarded(ctx, fig, "C20 show() figure battery")
+    ctx.log("wave-4 oracles done")
 
 
 def pick_classes(ctx, classes):
@@ -1340,6 +1841,18 @@ def replay(ctx, obj):
         res = check_reject(rp["cls"], rp["p"], rp["v"], rp["how"], rp["bad_name"])
     elif k == "ctor":
         res = check_ctor(rp["cls"], rp["p"], rp["v"], rp["mode"])
+    elif k == "multi":
+        res = check_multi(rp["cls"], rp["items"], rp["entry"])
+    elif k == "history":
+        res = check_history_twin(rp["cls"], [tuple(o) for o in rp["ops"]])
+    elif k == "reset-history":
+        res = check_reset_history([tuple(x) for x in rp["steps"]])
+    elif k == "batch":
+        res = check_batch([tuple(x) for x in rp["specs"]], rp["kw"])
+    elif k == "show-figure":
+        res = check_show_figure()
+    elif k == "alias":
+        res = check_alias(rp["cls"], rp["scenario"], rp["p"], rp["v"])
     elif k == "show-label":
         res = check_show_label(rp["cls"])
     elif k == "assign-instance":
